@@ -7,6 +7,7 @@ import (
 	"fmt"
 	"os"
 	"path/filepath"
+	"runtime"
 	"runtime/debug"
 	"sort"
 	"strconv"
@@ -248,7 +249,15 @@ func WatchHangs(onHang func(desc interface{})) {
 				last, lastT = cur, time.Now()
 				continue
 			}
-			if time.Since(lastT) > HangAfter {
+			runaway := false
+			if time.Since(lastT) > 2*time.Second {
+				// an operation that has not returned for seconds AND holds gigabytes: a loop that allocates without end
+				// (reported as a hang before the machine runs out of memory)
+				var ms runtime.MemStats
+				runtime.ReadMemStats(&ms)
+				runaway = ms.HeapAlloc > 4<<30
+			}
+			if runaway || time.Since(lastT) > HangAfter {
 				var d interface{}
 				if b, ok := hbDesc.Load().(*descBox); ok {
 					d = b.v
